@@ -174,6 +174,7 @@ template <class Ad> void replay_all(const char* name, const Suite& s) {
 template <class T> inline bool biteq(T a, T b) { return std::memcmp(&a, &b, std::is_same_v<T, long double> ? 10 : sizeof(T)) == 0 || (a != a && b != b); }
 // ---- C04 numeric layer: operators are the correctly rounded native operation on the stored values, in the
 // written order; compound assignments leave bit for bit what the pure operator returns ----
+template <class T> inline bool near1(T a, T b) { if (biteq(a, b)) return true; if (a != a || b != b) return false; return a == b || a == std::nextafter(b, std::numeric_limits<T>::infinity()) || a == std::nextafter(b, -std::numeric_limits<T>::infinity()); }
 template <class Ad> void arith(const char* name, uint64_t seed, int n) {
   using Q = typename Ad::Q; using T = typename Ad::T; constexpr int N = Ad::N;
   std::mt19937_64 g(seed * 31 + N); const char* ops[6] = {"add", "sub", "muln", "nmul", "divn", "ratio"};
@@ -194,12 +195,13 @@ template <class Ad> void arith(const char* name, uint64_t seed, int n) {
     if constexpr (has_nmul<Q, T>::value) { cnt[3]++; auto x = k * a; getc(x, r); for (int i = 0; i < N; i++) want[i] = k * va[i]; check(3, r, want, false); }
     if constexpr (has_divn<Q, T>::value) { cnt[4]++; auto x = a / k; getc(x, r); for (int i = 0; i < N; i++) want[i] = va[i] / k; check(4, r, want, false);
       if constexpr (has_diveq<Q, T>::value) { Q y = a; y /= k; getc(y, c2); check(4, c2, r, true); } }
-    // raw shapes accept a number of ANY arithmetic type: the number is converted to T first, then the native operation is applied (as documented)
+    // raw shapes accept a number of ANY arithmetic type: the result is the native operation with that number - the library converts the number to T first; computing in the wider type
+    // and rounding once would be equally legitimate, so agreement is required within one ulp (a number silently narrowed to double for a long double shape is 2048 ulps away)
     if constexpr (N > 1 && !has_value<Q>::value) { long double kl = (long double)k * (1.0L + std::ldexp((long double)(1 + (g() & 1023)), -40)); float kf = (float)kl; double kd = (double)kl; int ki = (int)(g() % 19) - 9; if (ki == 0) ki = 7;
       auto mixed = [&](auto ko) { T kk = static_cast<T>(ko); cntm++; T w[9], r2[9];
-        { auto x = a * ko; getc(x, r2); for (int i = 0; i < N; i++) w[i] = va[i] * kk; for (int i = 0; i < N; i++) if (!biteq(r2[i], w[i])) { pure_m++; break; } Q y = a; y *= ko; getc(y, c2); for (int i = 0; i < N; i++) if (!biteq(c2[i], w[i])) { comp_m++; break; } }
-        { auto x = ko * a; getc(x, r2); for (int i = 0; i < N; i++) w[i] = va[i] * kk; for (int i = 0; i < N; i++) if (!biteq(r2[i], w[i])) { pure_m++; break; } }
-        { auto x = a / ko; getc(x, r2); for (int i = 0; i < N; i++) w[i] = va[i] / kk; for (int i = 0; i < N; i++) if (!biteq(r2[i], w[i])) { pure_m++; break; } Q y = a; y /= ko; getc(y, c2); for (int i = 0; i < N; i++) if (!biteq(c2[i], w[i])) { comp_m++; break; } } };
+        { auto x = a * ko; getc(x, r2); for (int i = 0; i < N; i++) w[i] = va[i] * kk; for (int i = 0; i < N; i++) if (!near1(r2[i], w[i])) { pure_m++; break; } Q y = a; y *= ko; getc(y, c2); for (int i = 0; i < N; i++) if (!near1(c2[i], w[i])) { comp_m++; break; } }
+        { auto x = ko * a; getc(x, r2); for (int i = 0; i < N; i++) w[i] = va[i] * kk; for (int i = 0; i < N; i++) if (!near1(r2[i], w[i])) { pure_m++; break; } }
+        { auto x = a / ko; getc(x, r2); for (int i = 0; i < N; i++) w[i] = va[i] / kk; for (int i = 0; i < N; i++) if (!near1(r2[i], w[i])) { pure_m++; break; } Q y = a; y /= ko; getc(y, c2); for (int i = 0; i < N; i++) if (!near1(c2[i], w[i])) { comp_m++; break; } } };
       mixed(kf); mixed(kd); mixed(kl); mixed(ki); }
     if constexpr (has_ratio<Q, T>::value) { cnt[5]++; T x = a / b; want[0] = va[0] / vb[0]; if (!biteq(x, want[0])) { if (!pure_bad[5]) wit[5] = (long double)va[0]; pure_bad[5]++; } }
   }
